@@ -316,10 +316,18 @@ def gen_rows(rng, n, dspec, e_class="valid", s_scale=None):
     return dict(P=P, e=e, omega=om, M0=M0, s_kms=s)
 
 
-def build_samples(rows, units=None, ln_prior=False, t_ref=None, poly_trend=None, n_offsets=None):
-    """JokerSamples with the rows expressed in `units` (dict name->unit string)."""
+def build_samples(rows, units=None, ln_prior=False, t_ref=None, poly_trend=None, n_offsets=None, dtype=None):
+    """JokerSamples with the rows expressed in `units` (dict name->unit string); dtype: numpy dtype of the columns
+    (prior.sample(dtype=np.float32) produces single-precision libraries)."""
     from thejoker import JokerSamples
     units = dict(units or {})
+    if dtype is not None:
+        s = build_samples(rows, units=units, ln_prior=ln_prior, t_ref=t_ref, poly_trend=poly_trend, n_offsets=n_offsets)
+        out = JokerSamples(t_ref=t_ref, poly_trend=poly_trend, n_offsets=n_offsets)
+        for k in s.par_names:
+            col = s.tbl[k]
+            out[k] = np.asarray(col.value if hasattr(col, "value") else col).astype(dtype) * getattr(col, "unit", 1)
+        return out
     s = JokerSamples(t_ref=t_ref, poly_trend=poly_trend, n_offsets=n_offsets)
     s["P"] = np.array([conv(x, "d", units.get("P", "d")) for x in rows["P"]]) * U(units.get("P", "d"))
     s["e"] = np.asarray(rows["e"], dtype=float)
